@@ -32,6 +32,17 @@ def scalar_param_slots(c):
     return out
 
 
+def global_param_decls(c):
+    """(first slot, size) of every global parameter declaration, in declaration order"""
+    out, off = [], 0
+    for d in c.get("params", []):
+        if d.get("grid", "") == "":
+            n = d["rows"] * d["cols"]
+            out.append((off, n))
+            off += n
+    return out
+
+
 def gen_history(rng, case, maxlen):
     ops = []
     c = copy.deepcopy(case)   # running final specification
@@ -40,6 +51,25 @@ def gen_history(rng, case, maxlen):
         r = rng.random()
         if r < 0.25:
             ops.append([rng.choice(["sample", "value", "jacobian", "solve", "sample"])])
+        elif r < 0.30 and len(global_param_decls(c)) >= 2:
+            # two global parameters set through one concatenated symbol
+            gd = global_param_decls(c)
+            i, j = rng.sample(range(len(gd)), 2)
+            vals = [jq(dyadic(rng, -2, 2, 2)) for _ in range(gd[i][1] + gd[j][1])]
+            # the horizon parameter (if any) keeps a positive value
+            tp = c.get("T", {}).get("param")
+            off = 0
+            for (slot, n) in (gd[i], gd[j]):
+                for q in range(n):
+                    if tp is not None and slot + q == tp:
+                        vals[off + q] = jq(rng.choice([1, 2, Fraction(3, 2)]))
+                    c["param_values"]["p"][slot + q] = vals[off + q]
+                off += n
+            ops.append(["set_value_cat", i, j, vals])
+        elif r < 0.33 and "free" in c.get("T", {}):
+            v = jq(rng.choice([1, 2, Fraction(3, 2), Fraction(5, 2)]))
+            ops.append(["set_initial_T", v])
+            c["T"] = {"free": v}
         elif r < 0.40 and scalar_param_slots(c):
             i = rng.choice(scalar_param_slots(c))
             v = jq(dyadic(rng, -2, 2, 2))
@@ -164,6 +194,11 @@ def worker(args):
                             raise
                 elif k == "set_value":
                     ocp.set_value(B.S["p"][op[1]], float(Fr(op[2])))
+                elif k == "set_value_cat":
+                    gl = [p_ for g_, p_, d_ in B.pdecl if g_ == ""]
+                    ocp.set_value(ca.vertcat(gl[op[1]], gl[op[2]]), ca.DM([float(Fr(v)) for v in op[3]]))
+                elif k == "set_initial_T":
+                    ocp.set_initial(ocp.T, float(Fr(op[1])))
                 elif k == "subject_to":
                     con = op[1]
                     sub = dict(case0, constraints=[con], objective=[])
@@ -232,7 +267,7 @@ def worker(args):
 def model_flags(all_ops):
     lines = []
     cls = {"sample": "HQuery unit unit", "value": "HQuery unit unit", "jacobian": "HQuery unit unit", "solve": "HQuery unit unit",
-           "set_value": "HUpd unit unit tt", "set_initial": "HUpd unit unit tt"}
+           "set_value": "HUpd unit unit tt", "set_value_cat": "HUpd unit unit tt", "set_initial": "HUpd unit unit tt"}
     for ops in all_ops:
         o = "[" + "; ".join(cls.get(op[0], "HEdit unit unit tt") for op in ops if op[0] != "poke_method") + "]"
         lines.append("Eval vm_compute in (flags_of %s).\n" % o)
@@ -315,7 +350,7 @@ def run(tier="quick", seed=0, jobs=16):
     items = gen_cases(seed, n, 10 if tier == "quick" else 30)
     dis, nontriv, dist = run_items(items, "C13", jobs)
     return {"evaluations": len(items), "distinct_nontrivial": len(nontriv),
-            "rule": "random OCPs x random histories (length 2..10, thorough ..30) over set_value, set_initial, subject_to, "
+            "rule": "random OCPs x random histories (length 2..10, thorough ..30) over set_value (single and concatenated parameters), set_initial (incl. the guess of a free horizon), subject_to, "
                     "clear_constraints, add_objective, method, solver, set_T, set_t0, sample, value, jacobian, solve_limited.  "
                     "Compared: is_transcribed after every operation against the lazy-cache automaton; rows, objective, "
                     "parameter vector, starting point and solver name/options of the evolved OCP against a freshly "
